@@ -79,10 +79,13 @@ func newRunner(poolSize int) *runner {
 
 type rwPair struct {
 	io.Reader
-	w bytes.Buffer
+	w      bytes.Buffer
+	writes int
 }
 
-func (p *rwPair) Write(b []byte) (int, error) { return p.w.Write(b) }
+// Write counts calls: on a message-oriented transport (the WebSocket connection HandleReadWriter serves) every
+// Write is one outgoing message, so an empty Write is output too.
+func (p *rwPair) Write(b []byte) (int, error) { p.writes++; return p.w.Write(b) }
 
 const (
 	viaReader = iota
@@ -111,6 +114,9 @@ func (x *runner) run(via int, input []byte) (out []byte, calls []string, problem
 				problem = "error-return " + err.Error()
 			}
 			out = rw.w.Bytes()
+			if len(out) == 0 && rw.writes > 0 {
+				problem = "empty-message-written" // a zero-length message where the property demands no output
+			}
 		case viaHTTP:
 			rec := httptest.NewRecorder()
 			req := httptest.NewRequest(http.MethodPost, "/", bytes.NewReader(input))
@@ -856,7 +862,7 @@ func TestCheck(t *testing.T) {
 	r.Assume = append(r.Assume,
 		"encoding/json and reflect are trusted for value conversion; JSON well-formedness of inputs and outputs is decided by the harness' own RFC 8259 reader",
 		"tolerances T1..T10 listed at the top of oracle_test.go",
-		"WebSocket transport not driven (needs a socket); HandleReadWriter, which it wraps, is",
+		"WebSocket transport not driven through a socket; HandleReadWriter, which it wraps, is driven with a message-counting writer (an empty Write is an emitted message)",
 		"handlers themselves do not panic and return marshalable values")
 	r.Finish()
 }
